@@ -288,6 +288,76 @@ func RunC13(tier string) int {
 		}
 		run.Sample(map[string]any{"case": i, "shape": s.Shape(), "history": env.Log})
 	})
+	// The taint is consumed by the successful execution - also when whatever removes it is slow:
+	// every target is tainted (by pattern), the build that executes them all runs with a delay
+	// injected at the hook point in front of the taint removal (plain and on a terminal, where
+	// grog exits as soon as the build is done), and the next build must execute nothing.
+	if report.Part("taintconsumed") {
+		Parallel(tierN(tier, 10, 80), func(i int) {
+			r := rng.Derive(uint64(run.Seed), "C13-consumed", fmt.Sprint(i))
+			pf := spec.DefaultProfile()
+			pf.MinTargets, pf.MaxTargets = 2, 6
+			pf.NoCache = false
+			s := spec.Gen(r, pf)
+			env, err := NewEnv(st.Base, fmt.Sprintf("tc%d", i), st.Grog, st.Vctl, s, randCfg(r))
+			if err != nil {
+				run.Infra(err.Error())
+				return
+			}
+			keep := false
+			defer func() {
+				if !keep {
+					env.Cleanup()
+				}
+			}()
+			env.MaybeTTY(run, "consumed"+fmt.Sprint(i), 2)
+			cfg := BuildCfg{EnableCache: true}
+			if _, obs, vs, err := env.Step(BuildOpts{}, cfg, "cold", false); err != nil || len(vs) > 0 || obs.Res.Exit != 0 {
+				return
+			}
+			if env.RunTaint([]string{"//..."}).Exit != 0 {
+				run.Infra("grog taint failed")
+				return
+			}
+			for _, t := range env.Spec.Targets {
+				env.Taint[t.Label()] = true
+			}
+			delay := rng.Pick(r, []int{0, 20000, 150000, 600000})
+			bo := BuildOpts{Env: []string{fmt.Sprintf("GROG_VERIF_PLAN=taint.clear=delay:%d", delay)}}
+			env.Logf("every target tainted; taint removal delayed by %d us at its hook point", delay)
+			_, obs, vs, err := env.Step(bo, cfg, "all-tainted", false)
+			if err != nil {
+				run.Infra(err.Error())
+				return
+			}
+			run.Eval(1)
+			run.Count("builds_with_every_target_tainted", 1)
+			if len(vs) > 0 || obs.Res.Exit != 0 {
+				for _, v := range vs {
+					if v.Kind == "exec" {
+						keep = !run.Violation(v.Sig, v.What, mkReplay(i, env, obs)) || keep
+						return
+					}
+				}
+				return
+			}
+			_, obs2, vs2, err := env.Step(BuildOpts{}, cfg, "after-all-tainted", false)
+			if err != nil {
+				run.Infra(err.Error())
+				return
+			}
+			run.Eval(1)
+			run.Count("builds_after_every_taint_was_consumed", 1)
+			run.Nontrivial(fmt.Sprintf("consumed|%s|%d|tty=%v", s.Shape(), delay, env.Pty))
+			if len(obs2.Started) > 0 {
+				keep = !run.Violation("taint-not-consumed-by-the-successful-execution",
+					fmt.Sprintf("every target was tainted and executed successfully (exit 0); the next build executed %v again (terminal: %v, taint removal delayed by %d us)", keys(obs2.Started), env.Pty, delay),
+					mkReplay(i, env, obs2)) || keep
+				return
+			}
+			_ = vs2
+		})
+	}
 	run.Assume("what a cache-disabled build leaves behind in the cache is not fixed by the statement: the following build of those targets is may-exec")
 	return run.Finish()
 }
